@@ -221,7 +221,7 @@ register(
 
 register(
     "C02",
-    [vh_stage("c02", 16, 16)],
+    [vh_stage("c02", 16, 16, case_limit_s=40)],
     "generated programs (as C01, another slice of the generator's sequence) x dialects (2 per program quick / all 6 thorough) x 8 option sets {all off, optimize, frontend_opt, both, post-optimiser, optimize+post-optimiser, library path, CLI -O}; "
     "every build is run by clvmr on 5 argument trees and must return the reference value whenever the reference returns one (which implies pairwise agreement and that switching an option on never loses a value). "
     "Non-trivial/distinct = distinct program compared on >=1 argument tree for which >=2 builds produced different bytes",
